@@ -13,9 +13,10 @@
 let variant =
   match Sys.getenv_opt "C03_VARIANT" with
   | Some "pinned" -> pinned
-  | Some s when String.length s = 4 ->
-    (* four flags force,round,fit,sub as 0/1 *)
-    { v_force = (s.[0] = '1'); v_round = (s.[1] = '1'); v_fit = (s.[2] = '1'); v_sub = (s.[3] = '1') }
+  | Some s when String.length s = 5 ->
+    (* five flags force,round,fit,resort,sub as 0/1 *)
+    { v_force = (s.[0] = '1'); v_round = (s.[1] = '1'); v_fit = (s.[2] = '1'); v_resort = (s.[3] = '1');
+      v_sub = (s.[4] = '1') }
   | _ -> fixed
 
 let zi = z_of_int
